@@ -712,15 +712,16 @@ class ExprMixin(object):
             yield st, z3.Contains(c.term, self.term(item, 'S'))
             return
         if k == 'dict' or k == 'set':
-            if self.num_or_str(item) != 'S':
-                # non-string key: never present in a str-keyed dict
-                if not item.is_py and item.ty.kind in ('opt', 'any'):
+            kt = self.dict_key(item)
+            if kt is None:
+                if not item.is_py and item.ty.kind == 'any':
                     t = self.term(item, 'V')
-                    yield st, z3.And(Val.is_VStr(t), self.H(st, 'Dd')[c.term][Val.sval(t)])
+                    kt = z3.If(t == VNONE, z3.StringVal(self.NONE_KEY), Val.sval(t))
+                    yield st, z3.And(z3.Or(Val.is_VStr(t), t == VNONE), self.H(st, 'Dd')[c.term][kt])
                     return
                 yield st, False
                 return
-            yield st, self.H(st, 'Dd')[c.term][self.term(item, 'S')]
+            yield st, self.H(st, 'Dd')[c.term][kt]
             return
         if k in ('list', 'tuple'):
             elemty = self.seq_elem_type(c.ty)
@@ -778,6 +779,26 @@ class ExprMixin(object):
                 return st, self.or_(cs)
             raise OutOfReach('membership in generator over %r' % (seq,))
         raise OutOfReach('generator source')
+
+    NONE_KEY = '\x00<None>'
+
+    def dict_key(self, k):
+        """String term for a dict key that is a str or None (None is encoded by a reserved sentinel string;
+        ASSUMPTION: no real key equals the sentinel).  Returns None for other key kinds."""
+        if k.is_py:
+            if k.py is None:
+                return z3.StringVal(self.NONE_KEY)
+            if isinstance(k.py, str):
+                return z3.StringVal(k.py)
+            return None
+        kd = k.ty.kind
+        if kd in ('str',):
+            return k.term
+        if kd == 'none':
+            return z3.StringVal(self.NONE_KEY)
+        if kd == 'opt' and code_of(k.ty.args[0]) == 'S':
+            return z3.If(k.term == VNONE, z3.StringVal(self.NONE_KEY), Val.sval(k.term))
+        return None
 
     def seq_elem_type(self, ty, index=None):
         if ty.kind == 'list':
@@ -1124,20 +1145,10 @@ class ExprMixin(object):
         if k == 'dict':
             valty = base.ty.args[0]
             code = code_of(valty)
-            if self.num_or_str(idx) != 'S':
-                if not idx.is_py and idx.ty.kind in ('opt', 'any'):
-                    t = self.term(idx, 'V')
-                    isstr = Val.is_VStr(t)
-                    for st1, b in self.branch(st, isstr):
-                        if b:
-                            for r in self.getitem(st1, base, SV(Val.sval(t), STR), fr):
-                                yield r
-                        else:
-                            yield self.raise_(st1, KeyError, 'key')
-                    return
+            kt = self.dict_key(idx)
+            if kt is None:
                 yield self.raise_(st, KeyError, 'key')
                 return
-            kt = self.term(idx, 'S')
             present = self.H(st, 'Dd')[base.term][kt]
             val = self.H(st, 'Dv.' + code)[base.term][kt]
             if self.spec_mode:
